@@ -5,6 +5,8 @@
 import Driver.Proto
 import Driver.Ops
 import Driver.LoadFile
+import Swiftness.Generated.DynamicParams
+import Swiftness.Generated.Layout.dynamic_asserts
 
 open Swiftness Swiftness.Proto
 
@@ -65,10 +67,18 @@ def main (args : List String) : IO UInt32 := do
           match ← loadLayout dir n with
           | some l => ctx := { ctx with layouts := l :: ctx.layouts }
           | none => IO.eprintln s!"cannot parse translated programs of layout {n}"; return 3
-          if n != "dynamic" then
-            match ← loadData dir n periodic with
-            | some d => ctx := { ctx with data := d :: ctx.data }
-            | none => IO.eprintln s!"cannot load layout data of {n}"; return 3
+          match ← loadData dir n periodic with
+          | some d =>
+            if n == "dynamic" then
+              -- the assertion list and the dynamic-parameter order are the generated Lean terms themselves (the ones the theorems
+              -- are about); `dynamic.asserts.txt` must parse to the same list (translator's printer check at start-up)
+              let txt ← IO.FS.readFile s!"{dir}/dynamic.asserts.txt"
+              if DynAsserts.parseFile txt != some (Swiftness.Gen.Layout.dynamic.usizeMax, Swiftness.Gen.Layout.dynamic.asserts) then
+                IO.eprintln "dynamic.asserts.txt differs from the generated Lean assertion list"; return 3
+              ctx := { ctx with dyn := some { base := d, dpFields := Swiftness.Gen.DynamicParams.toVecOrder,
+                                              usizeMax := Swiftness.Gen.Layout.dynamic.usizeMax, asserts := Swiftness.Gen.Layout.dynamic.asserts } }
+            else ctx := { ctx with data := d :: ctx.data }
+          | none => IO.eprintln s!"cannot load layout data of {n}"; return 3
       | _ => pure ()
       loop stdin stdout (Driver.answer ctx H (stone == "stone6"))
       return 0
